@@ -38,6 +38,8 @@ def configs(ctx):
     k = 0
     for s in ["ap", "gd", "ip", "lfq", "lhq", "ll", "llp", "ltq", "pbq", "rnd", "spq"]:
         for cores in (1, 2, 4, 16):
+            if cores == 1 and s in ("ll", "llp"):
+                continue            # documented by the module: no active wait with a single thread (live-lock risk)
             k += 1
             out.append({"sched": s, "cores": cores, "conc": (1 if k % 4 == 0 else 32),
                         "iter": (1, 2, None)[k % 3], "chunk": (1, 3, None, 2)[k % 4], "noise": (k if k % 5 == 0 else 0)})
